@@ -3,7 +3,12 @@
 
 #[path = "../../vcore/src/c14dec.rs"]
 mod c14dec;
+mod c14ndl;
+mod c14stack;
+mod c13;
+mod c15dhcp;
 mod c15gen;
+mod c16;
 
 use vkit::report::{load_replay, parse_args, Report};
 
@@ -12,21 +17,36 @@ type ReplayFn = fn(&serde_json::Value, &str) -> String;
 
 fn c14_run(r: &mut Report, tier: &str) {
     c14dec::run(r, tier);
+    c14ndl::run(r, tier);
+    c14stack::run(r, tier);
 }
 fn c14_replay(w: &serde_json::Value, tier: &str) -> String {
-    c14dec::replay(w, tier)
+    if w["scenario"].is_string() {
+        c14stack::replay(w, tier)
+    } else if w["part"].as_str().map(|p| p.starts_with("ndl/")).unwrap_or(false) || (w["text"].is_string() && w["part"].is_null()) {
+        c14ndl::replay(w, tier)
+    } else {
+        c14dec::replay(w, tier)
+    }
 }
 
 fn c15_run(r: &mut Report, tier: &str) {
     c15gen::run(r, tier);
+    c15dhcp::run(r, tier);
 }
 fn c15_replay(w: &serde_json::Value, tier: &str) -> String {
-    c15gen::replay(w, tier)
+    if w["scenario"].is_string() {
+        c15dhcp::replay(w, tier)
+    } else {
+        c15gen::replay(w, tier)
+    }
 }
 
 const CHECKS: &[(&str, &str, RunFn, ReplayFn)] = &[
+    ("C13", "model_checking", c13::run, c13::replay),
     ("C14", "exploration", c14_run, c14_replay),
     ("C15", "model_checking", c15_run, c15_replay),
+    ("C16", "model_checking", c16::run, c16::replay),
 ];
 
 fn main() {
